@@ -8,7 +8,7 @@ Lean model.
 from __future__ import annotations
 
 from hv import core  # noqa: F401  (puts HV_REPO first on sys.path)
-from hv.props.c14_impl import Rec, _Stop, fp_table, make_strategy, traced
+from hv.props.c14_impl import Rec, _Stop, fp_table, make_strategy, traced, vtok
 
 
 def kname(i):
@@ -20,12 +20,12 @@ def kidx(s):
 
 
 def cellstr(v):
-    return "-" if v is None else str(v)
+    return vtok(v)
 
 
 def dump_node(node):
     if node.leaf:
-        return "(" + ",".join(f"{kidx(k)}={v}" for k, v in zip(node.keys, node.values)) + ")"
+        return "(" + ",".join(f"{kidx(k)}={vtok(v)}" for k, v in zip(node.keys, node.values)) + ")"
     if len(node.children) != len(node.keys) + 1:
         return "?!"
     return "[" + dump_node(node.children[0]) + "".join(
@@ -56,7 +56,7 @@ def store_lines(spec, store, nkeys):
     if spec[0] == "bt":
         out.append(f"shape {store.depth} {dump_node(store._root)}")     # private: node structure (trusted_base)
     else:
-        out.append("shape 1 (" + ",".join(f"{kidx(k)}={store.get_sync(k)}" for k in sorted(store.keys())) + ")")
+        out.append("shape 1 (" + ",".join(f"{kidx(k)}={vtok(store.get_sync(k))}" for k in sorted(store.keys())) + ")")
     return out
 
 
@@ -134,7 +134,7 @@ def run_store(case):
         if op[0] == "get":
             return cellstr(res)
         if op[0] == "scan":
-            return ",".join(f"{kidx(k)}={v}" for k, v in res) or "."
+            return ",".join(f"{kidx(k)}={vtok(v)}" for k, v in res) or "."
         return str(res)
 
     rec = _run(case, store, [], make_gen, fmt)
